@@ -291,3 +291,83 @@ Proof.
   - rewrite E, N3. lra.
   - intros i Hi. rewrite E, N4, <- (A4 i Hi), <- (B4 i Hi). now apply Hx.
 Qed.
+
+(* ---------- fold_space_dimensions ---------- *)
+Lemma nth_set_nth l : forall k x j, nth j (set_nth l k x) 0%Z = if Nat.eqb j k then x else nth j l 0%Z.
+Proof.
+  induction l as [|y l IH]; intros k x j.
+  - revert j. induction k as [|k IHk]; intros j; cbn [set_nth].
+    + destruct j as [|[|j]]; reflexivity.
+    + destruct j as [|j]; cbn [nth]; [reflexivity|]. rewrite IHk. cbn [Nat.eqb]. destruct (Nat.eqb j k); [reflexivity|]. now destruct j.
+  - destruct k as [|k]; cbn [set_nth].
+    + destruct j; reflexivity.
+    + destruct j as [|j]; cbn [nth]; [reflexivity|]. rewrite IH. reflexivity.
+Qed.
+
+Lemma gcoord_subst dest v g i : gcoord i (subst_coord dest v g) = if Nat.eqb i dest then gcoord v g else gcoord i g.
+Proof. unfold gcoord, subst_coord; cbn [gcoefs]. apply nth_set_nth. Qed.
+
+(* the generators with coordinate dest replaced by coordinate v generate the image of x_dest := x_v *)
+Theorem subst_gens_image n dest v G q : (dest < n)%nat -> (v < n)%nat ->
+  (in_gens n (map (subst_coord dest v) G) q <->
+   exists p, in_gens n G p /\ forall i, (i < n)%nat -> q i == (if Nat.eqb i dest then p v else p i)).
+Proof.
+  intros Hd Hv.
+  assert (W : forall (h : gen -> Z) (h' : gen -> Z), (forall g, h' (subst_coord dest v g) = h g) ->
+              forall mu k, dot (map h' (map (subst_coord dest v) G)) mu k == dot (map h G) mu k).
+  { intros h h' E mu. induction G as [|g G IH]; intros k; cbn [map dot]; [reflexivity|]. now rewrite E, IH. }
+  assert (Wpc : forall mu, dot (map pc_weight (map (subst_coord dest v) G)) mu 0 == dot (map pc_weight G) mu 0)
+    by (intros mu; apply W; intros g; reflexivity).
+  assert (Wp : forall mu, dot (map p_weight (map (subst_coord dest v) G)) mu 0 == dot (map p_weight G) mu 0)
+    by (intros mu; apply W; intros g; reflexivity).
+  assert (Wc : forall i mu, dot (map (gcoord i) (map (subst_coord dest v) G)) mu 0
+                           == dot (map (if Nat.eqb i dest then gcoord v else gcoord i) G) mu 0).
+  { intros i mu. apply W. intros g. rewrite gcoord_subst. destruct (Nat.eqb i dest); reflexivity. }
+  assert (Wl : forall j g, nth_error (map (subst_coord dest v) G) j = Some g -> exists g0, nth_error G j = Some g0 /\ is_line g = is_line g0).
+  { intros j g Hj. rewrite nth_error_map in Hj. destruct (nth_error G j) as [g0|]; [|discriminate].
+    injection Hj as <-. exists g0. split; reflexivity. }
+  split.
+  - intros [mu [H1 [H2 [H3 H4]]]].
+    exists (fun i => dot (map (gcoord i) G) mu 0). split.
+    + exists mu. split; [|split; [|split]].
+      * intros j g0 Hj Hl. apply (H1 j (subst_coord dest v g0)); [|exact Hl]. rewrite nth_error_map, Hj. reflexivity.
+      * now rewrite <- Wpc.
+      * now rewrite <- Wp.
+      * intros i _. reflexivity.
+    + intros i Hi. rewrite (H4 i Hi), Wc. destruct (Nat.eqb i dest); reflexivity.
+  - intros [p [[mu [H1 [H2 [H3 H4]]]] Hq]]. exists mu. split; [|split; [|split]].
+    + intros j g Hj Hl. destruct (Wl j g Hj) as [g0 [Hj0 El]]. rewrite El in Hl. now apply (H1 j g0).
+    + now rewrite Wpc.
+    + now rewrite Wp.
+    + intros i Hi. rewrite Wc, (Hq i Hi). destruct (Nat.eqb i dest); [now apply H4|now apply H4].
+Qed.
+
+(* n-ary hull: the concatenation of non-empty generator systems generates the least polyhedron containing all *)
+Theorem hull_list_least n (Gs : list (list gen)) (t : sys) :
+  (forall G, In G Gs -> wf_gens G /\ (forall g, In g G -> (length (gcoefs g) <= n)%nat) /\ (exists p, in_gens n G p)) ->
+  wf_sys_dim n t ->
+  (forall G, In G Gs -> forall p, in_gens n G p -> sat_sys t p) ->
+  forall p, in_gens n (concat Gs) p -> sat_sys t p.
+Proof.
+  intros HG [Wd1 Wd2] Hall p Hp.
+  assert (WF : wf_gens (concat Gs)).
+  { intros g Hg. apply in_concat in Hg. destruct Hg as [G [HGin Hg]]. now apply (proj1 (HG G HGin)). }
+  assert (OK : forall c, (length (coefs c) <= n)%nat -> (forall G, In G Gs -> forall q, in_gens n G q -> sat c q) ->
+               forall g, In g (concat Gs) -> gen_ok c g).
+  { intros c Lc Hc g Hg. apply in_concat in Hg. destruct Hg as [G [HGin Hg]]. destruct (HG G HGin) as [W [L N]].
+    exact (gens_valid_complete n c G W Lc L N (Hc G HGin) g Hg). }
+  split.
+  - intros e He. apply eq_as_ineqs.
+    assert (Lg : (length (coefs (ge_of e)) <= n)%nat) by (cbn; now apply Wd1).
+    assert (Ll : (length (coefs (le_of e)) <= n)%nat) by (unfold le_of, neg_c; cbn [coefs]; rewrite map_length; now apply Wd1).
+    split.
+    + apply (gens_valid_sound n (ge_of e) (concat Gs) WF Lg); [|exact Hp]. apply OK; [exact Lg|].
+      intros G HGin q Hq. apply (eq_as_ineqs e q). now apply (proj1 (Hall G HGin q Hq)).
+    + apply (gens_valid_sound n (le_of e) (concat Gs) WF Ll); [|exact Hp]. apply OK; [exact Ll|].
+      intros G HGin q Hq. apply (eq_as_ineqs e q). now apply (proj1 (Hall G HGin q Hq)).
+  - intros c Hc. apply (gens_valid_sound n c (concat Gs) WF (Wd2 c Hc)); [|exact Hp]. apply OK; [exact (Wd2 c Hc)|].
+    intros G HGin q Hq. now apply (proj2 (Hall G HGin q Hq)).
+Qed.
+
+Lemma fold_gens_concat vs dest G : fold_gens vs dest G = concat (G :: map (fun v => map (subst_coord dest v) G) vs).
+Proof. unfold fold_gens. cbn [concat]. f_equal. induction vs as [|v vs IH]; cbn [flat_map map concat]; [reflexivity|]. now rewrite IH. Qed.
